@@ -36,6 +36,7 @@ import (
 	"os/signal"
 	"path"
 	"path/filepath"
+	"reflect"
 	"regexp"
 	"runtime"
 	"sort"
@@ -1155,6 +1156,37 @@ func (r *runner) modelRefuses(specs, sched string, k int) bool {
 	return false
 }
 
+// callSetLock calls the real device.SetLock through reflection, so that a change of its parameter
+// list (an added flag, say) does not stop this harness from building — the real processes are
+// what judges such a change; extra parameters get their zero value here.
+func callSetLock(arg string, cfg *program.Config) (*os.File, error) {
+	f := reflect.ValueOf(device.SetLock)
+	t := f.Type()
+	in := make([]reflect.Value, t.NumIn())
+	for i := range in {
+		switch {
+		case i == 0 && t.In(i).Kind() == reflect.String:
+			in[i] = reflect.ValueOf(arg)
+		case t.In(i) == reflect.TypeOf(cfg):
+			in[i] = reflect.ValueOf(cfg)
+		default:
+			in[i] = reflect.Zero(t.In(i))
+		}
+	}
+	out := f.Call(in)
+	var fh *os.File
+	var err error
+	for _, o := range out {
+		switch v := o.Interface().(type) {
+		case *os.File:
+			fh = v
+		case error:
+			err = v
+		}
+	}
+	return fh, err
+}
+
 func holdsLockFd(pid int) bool {
 	ents, _ := os.ReadDir(fmt.Sprintf("/proc/%d/fd", pid))
 	for _, e := range ents {
@@ -1896,7 +1928,7 @@ func run(ctx *Ctx) *Result {
 		if err := ReadReplay(ctx.Replay, &arg); err == nil {
 			bd := filepath.Join(tmp, "lk")
 			os.MkdirAll(bd, 0755)
-			fh, err := device.SetLock(arg, &program.Config{BaseDir: bd})
+			fh, err := callSetLock(arg, &program.Config{BaseDir: bd})
 			real := fmt.Sprint(err)
 			if fh != nil {
 				real = fh.Name()
@@ -1984,7 +2016,7 @@ func run(ctx *Ctx) *Result {
 						panicked = fmt.Sprint(e)
 					}
 				}()
-				fh, err = device.SetLock(s, cfg)
+				fh, err = callSetLock(s, cfg)
 			}()
 			if panicked != "" {
 				res.Disagree("c12 lock file derivation (device.SetLock)", s, "panic: "+panicked, r.ask("lock\t"+bd+"\t"+s))
